@@ -582,6 +582,16 @@ class LoopMixin:
             return self.call_opaque(st, body, "WithBody", "", [], {}, None, None)
         return handler
 
+    def lemma_obligations(self, name):
+        """property-level lemmas over contract shapes: builder(engine) -> [(label, [hyps], goal)]"""
+        from .engine import Ob
+        lem = SP.LEMMAS[name]
+        self.cur = None
+        out = []
+        for label, hyps, goal in lem.builder(self):
+            out.append(Ob("lemma::%s::%s" % (name, label), list(hyps), goal, "lemma", lem.props, fn="lemma::" + name))
+        return out
+
     def check_exit(self, c, o, fid):
         st = o.st
         st.fid = fid
